@@ -2,7 +2,10 @@ package rules
 
 import (
 	"fmt"
+	"go/token"
 	"sort"
+
+	"golang.org/x/tools/go/ssa"
 
 	"verif/internal/core"
 )
@@ -125,6 +128,97 @@ func checkFieldCoverage(c *core.Ctx, prov *core.Prov) {
 				}
 				c.Report(core.Finding{Rule: "R04.20", Pkg: instsPkg, Func: "Disassembler." + fname, Detail: "field-not-decoded:" + f.name, Pos: c.Position(got[fname][0].fn.Pos()),
 					Msg: fmt.Sprintf("%s never reads %s[%d:%d] (%s): %s; an encoding that sets it decodes to the same Inst as one that does not", fname, f.word, f.hi, f.lo, f.name, eff)})
+			}
+		}
+	}
+}
+
+// R04.21: NewSRegOperand(code, index, n) names Regs[S0+index]: only indices 0..101 are
+// SGPRs; the scalar operand codes above (flat_scratch, xnack, vcc, ttmp, m0, exec,
+// inline constants) are mapped by getOperand.
+func checkSRegOperandRange(c *core.Ctx) {
+	st := c.Rule("R04.21", "a scalar register operand built directly from a field (NewSRegOperand(code, index, count), which names Regs[S0+index]) has an index inside the SGPR file s0..s101: the index argument is bounded by 101 by interval analysis of the field it comes from (extractBits width, shifts, masks), or the call is reached only through a comparison that bounds it; wider fields are scalar operand codes (102 flat_scratch_lo ... 106 vcc_lo, 124 m0, 126 exec_lo, 128.. constants) and go through getOperand", 1)
+	for _, fn := range c.SrcFuncs(instsPkg) {
+		var g *core.Graph
+		for _, b := range fn.Blocks {
+			for _, in := range b.Instrs {
+				call, ok := in.(*ssa.Call)
+				if !ok {
+					continue
+				}
+				cal := call.Call.StaticCallee()
+				if cal == nil || cal.Name() != "NewSRegOperand" || len(call.Call.Args) != 3 {
+					continue
+				}
+				st.Instances++
+				c.MarkAnalysed(fn)
+				idx := call.Call.Args[1]
+				iv := intervalOf(idx, 0)
+				ok2 := iv.hi <= 101
+				if !ok2 {
+					if g == nil {
+						g = core.BuildGraph(fn, 0, nil)
+					}
+					root := idx
+					for {
+						if cv, isC := root.(*ssa.Convert); isC {
+							root = cv.X
+							continue
+						}
+						break
+					}
+					bound := CmpCut(func(n *core.Node, op token.Token, x, y ssa.Value) int {
+						rx := x
+						for {
+							if cv, isC := rx.(*ssa.Convert); isC {
+								rx = cv.X
+								continue
+							}
+							break
+						}
+						k, isK := core.ConstInt(y)
+						if rx != root || !isK {
+							return 0
+						}
+						switch op {
+						case token.LEQ:
+							if k <= 101 {
+								return 1
+							}
+						case token.LSS:
+							if k <= 102 {
+								return 1
+							}
+						case token.GTR:
+							if k <= 101 {
+								return -1
+							}
+						case token.GEQ:
+							if k <= 102 {
+								return -1
+							}
+						}
+						return 0
+					})
+					if n := g.NodeOf(in); n != nil && g.Guarded(n, bound) {
+						ok2 = true
+					}
+				}
+				st.Ob(ok2)
+				st.Sample("%s: NewSRegOperand index in [%d, %d], bounded by 101: %v", core.FuncName(fn), iv.lo, iv.hi, ok2)
+				field := "?"
+				if refs := call.Referrers(); refs != nil {
+					for _, r := range *refs {
+						if sto, isS := r.(*ssa.Store); isS {
+							if f := instFieldOfStore(sto); f != "" {
+								field = f
+							}
+						}
+					}
+				}
+				if !ok2 {
+					c.ReportAt("R04.21", fn, in.Pos(), "sreg-index-unbounded:"+field, fmt.Sprintf("%s builds a scalar register operand from a field whose value can reach %d: indices above 101 select whatever follows s101 in the register table (106, vcc_lo, becomes another register; an inline constant gets no register at all and printing it dereferences nil) instead of the operand the code names", core.FuncName(fn), iv.hi))
+				}
 			}
 		}
 	}
